@@ -3,7 +3,10 @@ guarded writers never overwrite.
 
 Four ops go to the Lean driver (Driver/Effects.lean):
 
-* `history`   a sequence of <= 4 pipeline steps / array methods run by the REAL code on SHARED argument objects,
+* `history`   a sequence of <= 4 pipeline steps / array methods run by the REAL code on SHARED argument objects
+              (BASE_OPS: the alphabet of the property's quantifier, every pair generated; EXT_OPS: further argument
+              cells of the same steps, other public steps / array methods / helpers taking caller-owned arrays, lists
+              or dicts, a chained pipeline; data sets in two representations, see `flavor`),
               every step with its own RNG re-seeding and worker count; for every step the harness records a digest of
               the result, a digest of the same call on fresh copies (1 worker, other RNG state), digests of every
               argument before and after, and the final value of the small list arguments (filter lists, ignore lists).
@@ -27,23 +30,57 @@ import shutil
 import tempfile
 
 LEVEL = "proof"
-RULE = ("histories on SHARED argument objects of seeded data sets (3-4 chromosomes, 100-250 bins, raw coverages + "
-        "reference with gc/rmask, baits, access, haar segments, segmetrics and call tables, filter / ignore / threshold "
-        "/ statistic lists, combiner dict): quick = EVERY sequence of <= 2 steps over the 46-step base alphabet {target, "
-        "antitarget, fix (+- corrections), segment none/haar/haar+skip/hmm/hmm-tumor/hmm-germline, segmetrics (ci/pi/sem, "
-        "smoothed bootstrap, skip_low), call none/threshold/clonal x filter lists ci,cn / sem / ampdel / cn,ci,cn, "
-        "genemetrics (genes, segments, called segments), breaks, bintest (+target_only), metrics, export bed/vcf/seg/"
-        "theta, center_all and shuffle on a copy, merge, flatten, subtract, intersection, subdivide, resize, by_arm, "
-        "by_gene (default / list / tuple ignore), squash_genes, transfer_fields, get_gene_intervals} + the worker-count "
-        "variants (processes 2,3,16) with sampled partners; thorough = every pair over the full alphabet + 3500 sampled "
-        "sequences of 3-4 steps; numpy and python RNG re-seeded with a fresh value before every step, reference = same "
-        "call on fresh copies, 1 worker, another RNG state. ensure_path: 1..5 guarded writes x directories holding "
-        "the path, numbered backups with gaps, look-alike names, sub-directories. rng_trace: every runnable entry of "
-        "the generated RNG table x input shapes, plus functions the table must not list. gather: 0..12 tasks finishing "
-        "in scrambled order x workers {1,2,3,16}. non-trivial = a history with >= 2 steps or a step run in > 1 "
-        "process, >= 2 writes or a write onto an existing file, a trace with >= 1 draw, a pool with > 1 worker; "
-        "distinct by hash")
-EXHAUSTIVE = {"quick": True, "thorough": True}  # all histories of length <= 2 (quick: base alphabet; thorough: full)
+RULE = ("histories on SHARED argument objects of seeded data sets (3-4 chromosomes, 80-250 bins; raw coverages sorted / "
+        "unsorted / with a gc column / without rows / mostly without coverage, references with and without gc-rmask and "
+        "with sub-clusters, baits, access, regions, haar segments, segmetrics / call tables (with and without baf, cn1, "
+        "cn2), bins without depth / with the required columns only, SNV tables tumor-only and tumor-normal, lists of "
+        "arrays, filter / ignore / threshold / statistic / column / coordinate lists and tuples, combiner and chromosome-"
+        "size dicts, numpy vectors) in two REPRESENTATIONS: plain (0..n-1 index, canonical column order, chr names) and "
+        "alternative (every table a filtered subset with index labels != positions, optional columns permuted, Ensembl "
+        "names), male- / female-looking X, with / without chrY. quick = EVERY sequence of <= 2 steps over the 46-step "
+        "base alphabet {target, antitarget, fix (+- corrections), segment none/haar/haar+skip/hmm/hmm-tumor/hmm-germline, "
+        "segmetrics (ci/pi/sem, smoothed bootstrap, skip_low), call none/threshold/clonal x filter lists, genemetrics "
+        "(genes, segments, called segments), breaks, bintest (+target_only), metrics, export "
+        "bed/vcf/seg/theta, center_all and shuffle on a copy, merge, flatten, subtract, intersection, subdivide, resize, "
+        "by_arm, by_gene (default / list / tuple ignore), squash_genes, transfer_fields, get_gene_intervals} alternating "
+        "the two representations, + the worker-count variants (processes 2,3,16) with sampled partners, + ~185 "
+        "extension steps, each alone on one representation, repeated on the other, and before / after a sampled partner: "
+        "genemetrics with called / segmetrics segments x reference-X x sample-sex; do_call "
+        "with variants (+- purity), on tables already carrying baf/cn, reference-X x sample-sex under purity, PAR "
+        "genome, tuple filters, default thresholds; do_segmentation with variants (haar, none, hmm; also with 2 "
+        "workers), outlier filter off / strict, explicit threshold, hmm x skip_low / min_weight / PAR, bins without "
+        "depth; do_fix on unsorted / gc-column / no-antitarget / low-coverage samples, references without gc-rmask, "
+        "do_cluster, single corrections, window fraction, PAR; segmetrics without stats / intervals only / smoothed+"
+        "skip_low on baf tables; genemetrics with guessed sex / PAR / bare bins; bintest without segments / on "
+        "overlapping ranges; metrics on lists / tuples / one-to-many (+skip_low); breaks; do_sex; exports bed "
+        "(variant / ploidy), vcf with bins (CI fields), theta without normal / with segmetrics, theta SNPs, nexus "
+        "basic / ogt, seg / gistic / jtv / cdt from file-name lists; do_reference (file-name lists in unsorted order, "
+        "sexes given / inferred, gc column, no antitargets), do_reference_flat, import-theta; binwise positions, "
+        "scatter / heatmap / diagram (arguments only); a chained fix -> segment -> segmetrics -> call -> genemetrics / "
+        "bintest / export pipeline whose intermediate results are fingerprinted (1 and 3 workers); array methods "
+        "center_all (estimators, by_chrom, PAR), sort, sort_columns, add, concat, copy, autosomes (+also), by_chromosome, "
+        "by_arm (args), by_ranges, in_range(s), into_ranges, iter_ranges_of, coords, labels, add_columns, keep_columns, "
+        "drop_extra_columns, filter, __getitem__, drop_low_coverage, squash_genes (default / antitarget / reference), "
+        "shift_xx (reference-X x sex given / guessed, PAR), guess_xx, compare_sex_chromosomes, expect_flat_log2, "
+        "residuals, smooth_log2, sex filters, total_range_size, resize (negative, chrom_sizes dict), merge (bp / fast "
+        "path), flatten (combine / fast path), subtract, intersection (outer / inner), subdivide (min); VariantArray "
+        "baf_by_ranges (tumor boost), het_frac_by_ranges, zygosity_from_freq, heterozygous, mirrored_baf, tumor_boost; "
+        "segfilters, squash_by_groups(by_arm), absolute_* / log2_ratios / rescale_baf, transfer_fields / drop_outliers, "
+        "fix helpers, tabio.write in 7 formats, descriptives / smoothing / bootstrap on caller-owned vectors. thorough = "
+        "every pair over base + worker variants, every extension step x 15 partners both orders, + 3500 sampled sequences "
+        "of 3-4 steps; numpy and python RNG re-seeded with a fresh value before every step, reference = same call on "
+        "fresh copies, 1 worker, another RNG state. ensure_path: 1..5 guarded writes x directories holding the path, "
+        "numbered backups with gaps, look-alike names, sub-directories x path absolute / relative to the working "
+        "directory ('out.cnn', './out.cnn', '../d/out.cnn'). rng_trace: every runnable entry of the generated RNG table "
+        "(fix, segmetrics, shuffle, reference incl. load_sample_block / combine_probes / bias_correct_logr, rna."
+        "correct_cnr) x input shapes, plus functions the table must not list (segmentation incl. variants, call, "
+        "genemetrics, bintest, metrics, breaks, export vcf, baf_by_ranges); generator state compared before / after so "
+        "that draws bypassing np.random.* count. gather: 0..12 tasks finishing in scrambled order x workers {1,2,3,16,0}. "
+        "NOT generated (real defects, proposed_fixes/C10-*.md): do_reference(do_cluster), do_fix on an empty target "
+        "table, autosomes(also=Series) with a PAR genome, export_nexus_ogt(min_weight>0), object / categorical "
+        "chromosome columns. non-trivial = a history with >= 2 steps or a step run in > 1 process, >= 2 writes or a write "
+        "onto an existing file, a trace with >= 1 draw, a pool with > 1 worker; distinct by hash")
+EXHAUSTIVE = {"quick": True, "thorough": True}  # all histories of length <= 2 over the base alphabet (+ worker variants in thorough)
 ASSUMPTIONS = ["argument objects are those a Python caller would pass: CopyNumArray/GenomicArray tables, lists of "
                "strings, dicts; snapshots compare frames incl. index and dtypes, lists, dicts minus chr_x/chr_y meta",
                "results are compared through a canonical digest (floats at 12 significant digits, NaN = null)",
@@ -59,28 +96,61 @@ TRUSTED_EXTRA = ["purity of the CPython/pandas code is not a theorem: it is esta
 
 _DS = {}
 _REF = {}
-SMALL = ("FL_ci_cn", "FL_sem", "FL_ampdel", "FL_cc", "IG_list", "IG_empty", "IG_tuple", "THR", "LOC", "SPR", "IVL")
 FILTER_LISTS = {"FL_ci_cn": ["ci", "cn"], "FL_sem": ["sem"], "FL_ampdel": ["ampdel"], "FL_cc": ["cn", "ci", "cn"]}
 
 
+def flavor(seed):
+    """representation bits of a data-set id: (male-looking X, alternative representation, chrY present)"""
+    return bool(seed % 2), bool((seed // 2) % 2), (seed // 4) % 4 != 3
+
+
+def _as_subset(arr, rng):
+    """the same table as a SUBSET of a larger one (junk rows interleaved, then removed with a boolean mask): the
+    pandas index labels differ from the row positions, as for any table obtained by filtering"""
+    import numpy as np
+    df = arr.data
+    n = len(df)
+    if not n:
+        return arr
+    reps = [rng.choice([1, 1, 2, 3]) for _ in range(n)]
+    if max(reps) == 1:
+        reps[0] = 2
+    big = df.iloc[np.repeat(np.arange(n), reps)].reset_index(drop=True)
+    keep = np.zeros(len(big), dtype=bool)
+    keep[np.cumsum(reps) - 1] = True
+    return arr.as_dataframe(big)[keep]
+
+
+def _permute_extras(arr):
+    """optional columns in another order than the writers / sort_columns leave them"""
+    req = [c for c in arr._required_columns]
+    extra = [c for c in arr.data.columns if c not in req]
+    return arr.as_dataframe(arr.data[req + extra[::-1]])
+
+
 def _mkds(seed):
-    """argument objects of one data set; everything derives from `seed`"""
+    """argument objects of one data set; everything derives from `seed` (see `flavor`)"""
     import numpy as np
     from skgenome import GenomicArray as GA
     from cnvlib.cnary import CopyNumArray as CNA
+    from cnvlib.vary import VariantArray as VA
     from cnvlib import segmentation, segmetrics, call
 
     rng = _pyrandom.Random(seed)
-    chroms = ["chr1", "chr2", "chrX"] + (["chrY"] if rng.random() < 0.4 else [])
+    male, alt, with_y = flavor(seed)
+    pre = "" if alt else "chr"  # alternative representation: Ensembl-style names
+    chroms = [pre + "1", pre + "2", pre + "X"] + ([pre + "Y"] if with_y else [])
     nb = rng.choice([30, 50, 70])
-    rows, raw_t, raw_a, refrows, baits, access = [], [], [], [], [], []
+    rows, raw_t, raw_a, refrows, baits, access, snvs = [], [], [], [], [], [], []
     for c in chroms:
+        sexc = c[len(pre):] in ("X", "Y")
         pos = rng.randint(0, 50000)
-        n = nb if c not in ("chrX", "chrY") else max(20, nb // 2)
-        if c == "chrY":
+        n = nb if not sexc else max(20, nb // 2)
+        if c == pre + "Y":
             n = 12
         step_at = rng.randint(n // 3, 2 * n // 3) if rng.random() < 0.7 else n + 1
         lvl2 = rng.choice([-0.8, 0.585, 1.0])
+        loh_from = rng.randint(0, n) if rng.random() < 0.5 else n + 1
         a0 = pos
         for i in range(n):
             anti = (i % 5 == 4)
@@ -88,8 +158,8 @@ def _mkds(seed):
             pos += rng.randint(0, 300)
             if i == n // 2 and rng.random() < 0.5:
                 pos += rng.randint(150000, 900000)  # centromere-sized gap: by_arm splits
-            g = "Antitarget" if anti else rng.choice(["G%s_%d" % (c[3:], i // 8)] * 8 + ["-", "CGH"])
-            base = (lvl2 if i >= step_at else 0.0) + (-1.0 if c in ("chrX", "chrY") and seed % 2 else 0.0)
+            g = "Antitarget" if anti else rng.choice(["G%s_%d" % (c[len(pre):], i // 8)] * 8 + ["-", "CGH"])
+            base = (lvl2 if i >= step_at else 0.0) + (-1.0 if sexc and male else 0.0)
             lg = round(base + rng.gauss(0, 0.12), 5)
             null = rng.random() < 0.03
             if null:
@@ -99,15 +169,29 @@ def _mkds(seed):
             gc = round(min(0.8, max(0.2, rng.gauss(0.5, 0.1))), 4)
             rm = round(rng.random() * 0.6, 4)
             rows.append((c, pos, pos + sz, g, lg, depth, w))
-            rlg = round(rng.gauss(0, 0.2), 5) + (-1.0 if c == "chrY" else 0.0)
+            rlg = round(rng.gauss(0, 0.2), 5) + (-1.0 if c == pre + "Y" else 0.0)
             refrows.append((c, pos, pos + sz, g, rlg, round(40 * 2 ** rlg, 4), gc, rm, round(abs(rng.gauss(0.15, 0.08)), 5)))
             slg = round(lg + rlg + 5.0, 5)
             (raw_a if anti else raw_t).append((c, pos, pos + sz, g, slg, round(2 ** slg, 4)))
             if not anti:
                 baits.append((c, pos, pos + sz, g if rng.random() < 0.8 else g + "|x,y"))
+                # SNVs inside the bin: heterozygous (balanced, or allelic imbalance after `loh_from`), some homozygous
+                for _k in range(rng.choice([0, 2, 3, 4])):
+                    p = pos + rng.randint(0, sz - 1)
+                    zyg = rng.choice([0.5] * 6 + [1.0, 0.0])
+                    f = {0.5: (0.5 if i < loh_from else rng.choice([0.25, 0.75])), 1.0: 0.98, 0.0: 0.03}[zyg]
+                    f = round(min(1.0, max(0.0, f + rng.gauss(0, 0.04))), 4)
+                    dp = rng.randint(30, 90)
+                    nf = round(min(0.97, max(0.03, {0.5: 0.5, 1.0: 0.97, 0.0: 0.03}[zyg] + rng.gauss(0, 0.03))), 4)
+                    ndp = rng.randint(30, 90)
+                    snvs.append((c, p, p + 1, rng.choice("ACGT"), rng.choice(["A", "C", "G", "T", "TA"]), rng.random() < 0.2,
+                                 zyg, float(dp), float(round(f * dp)), f, zyg, float(ndp), float(round(nf * ndp)), nf))
             pos += sz
         access.append((c, max(0, a0 - 20000), pos + rng.randint(20000, 90000)))
+    snvs = sorted(set(snvs), key=lambda r: (chroms.index(r[0]), r[1]))
     meta = {"sample_id": "S%d" % seed, "filename": "S%d.cnr" % seed}
+    # chromosome / gene columns have the `str` dtype tabio.read gives them; by_arm re-casts an object / categorical
+    # chromosome column of its array in place (proposed_fixes/C10-by-arm-recasts-chromosome.md): not generated
     cnr = CNA.from_rows(rows, columns=["chromosome", "start", "end", "gene", "log2", "depth", "weight"], meta_dict=dict(meta))
     cov = ["chromosome", "start", "end", "gene", "log2", "depth"]
     tgt = CNA.from_rows(raw_t, columns=cov, meta_dict=dict(meta))
@@ -116,17 +200,60 @@ def _mkds(seed):
                         meta_dict={"sample_id": "reference"})
     bait = GA.from_rows(baits, columns=["chromosome", "start", "end", "gene"])
     acc = GA.from_rows(access, columns=["chromosome", "start", "end"])
+    vcols = ["chromosome", "start", "end", "ref", "alt", "somatic", "zygosity", "depth", "alt_count", "alt_freq",
+             "n_zygosity", "n_depth", "n_alt_count", "n_alt_freq"]
+    vcf_tn = VA.from_rows(snvs, columns=vcols, meta_dict={"sample_id": "S%d" % seed})
+    vcf = VA(vcf_tn.data[vcols[:10]].copy(), {"sample_id": "S%d" % seed})
+    # a second, coarser set of regions (other breakpoints) used as the "other" table of the interval methods
+    regions = GA.from_rows([(c, s + 37, e + 1200, "r%d" % k) for k, (c, s, e, *_r) in enumerate(rows) if k % 7 in (0, 1, 3)],
+                           columns=["chromosome", "start", "end", "gene"])
+    if alt:  # every table a filtered subset (index labels != positions), optional columns in another order
+        srng = _pyrandom.Random(seed + 1)
+        cnr, tgt, anti, ref = (_permute_extras(_as_subset(x, srng)) for x in (cnr, tgt, anti, ref))
+        bait, acc, regions, vcf, vcf_tn = (_as_subset(x, srng) for x in (bait, acc, regions, vcf, vcf_tn))
     np.random.seed(seed)
     seg = segmentation.do_segmentation(cnr.copy(), "haar")
     sm = segmetrics.do_segmetrics(cnr.copy(), seg.copy(), ("mean",), ("sem",), ("ci", "pi"))
     cl = call.do_call(sm.copy(), method="threshold")
-    # a second, coarser segmentation (other breakpoints) used as the "other" table of the interval methods
-    regions = GA.from_rows([(c, s + 37, e + 1200, "r%d" % k) for k, (c, s, e, *_r) in enumerate(rows) if k % 7 in (0, 1, 3)],
-                           columns=["chromosome", "start", "end", "gene"])
+    clb = call.do_call(sm.copy(), vcf.copy(), method="clonal", purity=0.8, is_sample_female=not male)  # with baf, cn1, cn2
+    if alt:
+        seg, sm, cl, clb = (_permute_extras(_as_subset(x, srng)) for x in (seg, sm, cl, clb))
+    # raw coverages as other callers have them: rows out of genomic order / Picard-derived with a gc column / no
+    # off-target bins at all (amplicon, WGS); references without gc / rmask, with sub-clusters
+    sh = _pyrandom.Random(seed + 2)
+    order_t, order_a = list(range(len(tgt))), list(range(len(anti)))
+    sh.shuffle(order_t)
+    sh.shuffle(order_a)
+    tgt_u = tgt.as_dataframe(tgt.data.iloc[order_t])
+    anti_u = anti.as_dataframe(anti.data.iloc[order_a])
+    gcmap = {(r[0], r[1]): r[6] for r in refrows}
+    tgt_gc = tgt.add_columns(gc=[gcmap[(c, s)] for c, s in zip(tgt.chromosome, tgt.start)])
+    anti_0 = anti.as_dataframe(anti.data.iloc[:0])
+    ref_plain = ref.as_dataframe(ref.data.drop(columns=["gc", "rmask"]))
+    crng = np.random.RandomState(seed % (2 ** 32))
+    ref_cl = ref.add_columns(log2_1=ref["log2"].values + crng.normal(0, 0.05, len(ref)), spread_1=ref["spread"].values * 0.8,
+                             log2_2=ref["log2"].values + crng.normal(0, 0.3, len(ref)), spread_2=ref["spread"].values * 1.3)
+    low = tgt.copy()
+    low["log2"] = np.where(np.arange(len(low)) % 4 == 0, low["log2"].values, -25.0)  # most bins without coverage
+    cnr_bare = cnr.as_dataframe(cnr.data[["chromosome", "start", "end", "gene", "log2"]].copy())
+    cnr_nodepth = cnr.as_dataframe(cnr.data.drop(columns=["depth"]))
+    cnr2 = cnr.copy()
+    cnr2["log2"] = cnr2["log2"].values[::-1].copy()
+    cnr2.meta["sample_id"] = "T%d" % seed
+    cnr2.meta["filename"] = "T%d.cnr" % seed
+    ends = {c: int(cnr.data.loc[cnr.chromosome == c, "end"].max()) for c in chroms}
+    c1 = chroms[0]
+    s1 = sorted(int(x) for x in cnr.data.loc[cnr.chromosome == c1, "start"])
     ds = {"cnr": cnr, "tgt": tgt, "anti": anti, "ref": ref, "bait": bait, "acc": acc, "seg": seg, "sm": sm, "cl": cl,
-          "regions": regions,
+          "clb": clb, "regions": regions, "vcf": vcf, "vcf_tn": vcf_tn, "tgt_u": tgt_u, "anti_u": anti_u, "tgt_gc": tgt_gc,
+          "anti_0": anti_0, "ref_plain": ref_plain, "ref_cl": ref_cl, "tgt_low": low, "cnr_bare": cnr_bare,
+          "cnr_nodepth": cnr_nodepth, "cnr2": cnr2, "CNRS": [cnr, cnr2], "SEGS": [seg, seg],
+          "LOGV": cnr["log2"].values[:40].astype(float).copy(), "WTS": cnr["weight"].values[:40].astype(float).copy(),
+          "CHROMSIZES": {c: ends[c] + 500 for c in chroms}, "CHR1": c1, "CHRX": pre + "X",
           "IG_list": ["-", "CGH"], "IG_empty": [], "IG_tuple": ("-", ".", "CGH"),
           "THR": [-1.1, -0.25, 0.2, 0.7], "LOC": ["mean", "median"], "SPR": ["stdev", "sem"], "IVL": ["ci", "pi"],
+          "FL_tuple": ("ci", "cn"), "COLS": ["chromosome", "start", "end", "gene", "log2", "weight", "nosuchcolumn"], "ALSO": [pre + "X"],
+          "ALSOCOLS": ["gene", "weight"], "STARTS": [s1[2], s1[len(s1) // 2]], "ENDS": [s1[4] + 50, s1[-2] + 10],
           "COMB": {"gene": "-".join, "log2": max, "depth": max, "weight": max}}
     for k, v in FILTER_LISTS.items():
         ds[k] = list(v)
@@ -142,18 +269,43 @@ def dataset(seed):
     return _DS[seed]
 
 
+def _copy_arg(k, v):
+    if hasattr(v, "data") and hasattr(v, "meta"):
+        return v.copy()
+    if k == "COMB":
+        return dict(v)
+    return copy.deepcopy(v)
+
+
+_PRISTINE = {}
+
+
+class Env(dict):
+    """fresh deep copies of the argument objects of one data set, made when an op first asks for them; an object no
+    op has asked for is still the pristine one, and its fingerprint is the cached fingerprint of the pristine object"""
+
+    def __init__(self, seed):
+        super().__init__()
+        self.ds = dataset(seed)
+        if seed not in _PRISTINE:
+            if len(_PRISTINE) > 12:
+                _PRISTINE.clear()
+            _PRISTINE[seed] = {k: arg_digest(v) for k, v in self.ds.items() if not isinstance(v, str)}
+        self.pristine = _PRISTINE[seed]
+
+    def __missing__(self, k):
+        v = _copy_arg(k, self.ds[k])
+        self[k] = v
+        return v
+
+    def fingerprints(self, keys=None):
+        return {k: (arg_digest(dict.__getitem__(self, k)) if k in self else self.pristine[k])
+                for k in (keys if keys is not None else self.pristine)}
+
+
 def fresh_env(seed):
-    """deep copies of every argument object (what `the same call on fresh copies` uses)"""
-    ds = dataset(seed)
-    env = {}
-    for k, v in ds.items():
-        if hasattr(v, "data") and hasattr(v, "meta"):
-            env[k] = v.copy()
-        elif k == "COMB":
-            env[k] = dict(v)
-        else:
-            env[k] = copy.deepcopy(v)
-    return env
+    """deep copies of every argument object (what `the same call on fresh copies` uses), made on first use"""
+    return Env(seed)
 
 
 # ---------------------------------------------------------------------------------------------
@@ -170,7 +322,7 @@ def _canon(x):
                 "meta": _canon({k: v for k, v in x.meta.items() if k not in ("chr_x", "chr_y")})}
     if isinstance(x, pd.DataFrame):
         return {"cols": [str(c) for c in x.columns], "dtypes": [str(t) for t in x.dtypes],
-                "index": _canon(list(x.index)), "vals": [_canon(x[c].tolist()) for c in x.columns]}
+                "index": _canon(list(x.index)), "vals": [_canon(x.iloc[:, j].tolist()) for j in range(x.shape[1])]}
     if isinstance(x, pd.Series):
         return {"series": str(x.dtype), "index": _canon(list(x.index)), "vals": _canon(x.tolist())}
     if isinstance(x, np.ndarray):
@@ -225,11 +377,15 @@ def arg_digest(x):
         _frame_bytes(h, x.data)
         h.update(repr(sorted((str(k), repr(v)) for k, v in x.meta.items() if k not in ("chr_x", "chr_y"))).encode())
         return h.hexdigest()[:16]
+    if isinstance(x, (list, tuple)) and any(hasattr(v, "data") and hasattr(v, "meta") for v in x):
+        return hashlib.sha1((type(x).__name__ + ":" + ",".join(arg_digest(v) for v in x)).encode()).hexdigest()[:16]
+    if type(x).__module__ == "numpy" and hasattr(x, "tobytes"):
+        return hashlib.sha1((str(x.dtype) + str(x.shape)).encode() + x.tobytes()).hexdigest()[:16]
     return digest(x)
 
 
 def snapshot(env):
-    return {k: arg_digest(v) for k, v in env.items()}
+    return env.fingerprints()
 
 
 # ---------------------------------------------------------------------------------------------
@@ -343,7 +499,436 @@ def _ops():
             ops["%s@p%d" % (base, p)] = (base, p, [], ops[base][3])
     # the HMM methods accept `processes` too (and run serially whatever it says)
     ops["segment-hmm-germline@p3"] = ("segment-hmm-germline", 3, [], ops["segment-hmm-germline"][3])
+    for name, f in _ext_ops().items():
+        assert name not in ops, name
+        ops[name] = (name, 1, SMALL_USE.get(name, []), f)
+    for name in EXT_PAR:
+        b, p = name.split("@p")
+        ops[name] = (b, int(p), SMALL_USE.get(b, []), ops[b][3])
+    missing = set(BASE_OPS + PAR_OPS + EXT_OPS + EXT_PAR) ^ set(ops)
+    assert not missing, "static alphabet and op table differ: %s" % sorted(missing)
     return ops
+
+
+def _cohort_files(e, d, k=3, tkey="tgt", akey="anti"):
+    """k normal samples written to `d`; the lists come back in an order that is NOT the sorted one"""
+    import numpy as np
+    from skgenome import tabio
+    tf, af = [], []
+    for s in range(k):
+        t, a = e[tkey].copy(), e[akey].copy()
+        t["log2"] = t["log2"] + 0.05 * s * np.cos(np.arange(len(t)))
+        a["log2"] = a["log2"] - 0.03 * s
+        tp, ap = os.path.join(d, "n%d.targetcoverage.cnn" % s), os.path.join(d, "n%d.antitargetcoverage.cnn" % s)
+        tabio.write(t, tp)
+        tabio.write(a, ap)
+        tf.append(tp)
+        af.append(ap)
+    return tf[1:] + tf[:1], af[1:] + af[:1]
+
+
+class ArgumentChanged(AssertionError):
+    """an argument object that only lives inside one op (a file-name list, an intermediate result) was changed"""
+
+
+def _unchanged(what, obj, before):
+    if arg_digest(obj) != before:
+        raise ArgumentChanged(what)
+
+
+def _ext_ops():
+    """argument cells, representations and public functions / methods beyond the base alphabet (audit extension)"""
+    import io
+    import contextlib
+    import numpy as np
+    import pandas as pd
+    from skgenome import tabio
+    from cnvlib import (bintest, call, commands, descriptives, export, fix, importers, metrics, plots, reference, reports,
+                        segfilters, segmentation, segmetrics, smoothing)
+    from cnvlib import cnary  # noqa: F401
+
+    X = {}
+
+    def seg_(arr, method, vcf=None, **kw):
+        return lambda e, p: segmentation.do_segmentation(e[arr], method, variants=(e[vcf] if vcf else None), processes=p, **kw)
+
+    def call_(arr, method, vcf=None, fl=None, thr=True, **kw):
+        def f(e, p):
+            kw2 = dict(kw)
+            if fl:
+                kw2["filters"] = e[fl]
+            if thr:
+                kw2["thresholds"] = e["THR"]
+            return call.do_call(e[arr], e[vcf] if vcf else None, method=method, **kw2)
+        return f
+
+    def fix_(t="tgt", a="anti", r="ref", **kw):
+        return lambda e, p: fix.do_fix(e[t], e[a], e[r], **kw)
+
+    def in_tmp(f):
+        def g(e, p):
+            d = tempfile.mkdtemp(dir="/var/tmp", prefix="c10x")
+            try:
+                return f(e, d)
+            finally:
+                shutil.rmtree(d, ignore_errors=True)
+        return g
+
+    def files_op(maker, fun):
+        """`fun(list of file names)`: the list is the caller's"""
+        def f(e, d):
+            names = maker(e, d)
+            before = [list(x) if isinstance(x, list) else x for x in names]
+            out = fun(*names)
+            if [list(x) if isinstance(x, list) else x for x in names] != before:
+                raise ArgumentChanged("file-name list")
+            return out
+        return in_tmp(f)
+
+    cohort = _cohort_files
+
+    def beds(e, d):
+        from cnvlib import antitarget, target
+        tp, ap = os.path.join(d, "t.target.bed"), os.path.join(d, "t.antitarget.bed")
+        tabio.write(target.do_target(e["bait"].copy()), tp, "bed4")
+        tabio.write(antitarget.do_antitarget(e["bait"].copy(), e["acc"].copy(), 5000, 500), ap, "bed4")
+        return tp, ap
+
+    def cnfiles(keys, ext):
+        def mk(e, d):
+            fns = []
+            for j, k in enumerate(keys):
+                fn = os.path.join(d, "x%d.%s" % (j, ext))
+                tabio.write(e[k], fn)
+                fns.append(fn)
+            return (fns,)
+        return mk
+
+    def quiet(f):
+        def g(*a, **k):
+            with contextlib.redirect_stdout(io.StringIO()):
+                return f(*a, **k)
+        return g
+
+    # ---- do_call: variants, table already carrying baf / cn, reference-X x sample-sex cells under purity, PAR, tuple
+    X["call-vcf"] = call_("sm", "threshold", "vcf")
+    X["call-vcf-purity"] = call_("sm", "clonal", "vcf_tn", purity=0.6, is_sample_female=True)
+    X["call-vcf-thr-purity"] = call_("sm", "threshold", "vcf", fl="FL_cc", purity=0.45, ploidy=3)
+    X["call-clb"] = call_("clb", "threshold", fl="FL_ampdel")  # table that already has cn / cn1 / cn2 / baf
+    X["call-clb-purity"] = call_("clb", "clonal", purity=0.5, is_haploid_x_reference=True, is_sample_female=False)
+    X["call-clonal-Yf"] = call_("sm", "clonal", purity=0.7, is_haploid_x_reference=True, is_sample_female=True)
+    X["call-clonal-Xm"] = call_("sm", "clonal", purity=0.7, is_haploid_x_reference=False, is_sample_female=False)
+    X["call-clonal-pure-Y"] = call_("sm", "clonal", is_haploid_x_reference=True)
+    X["call-parx"] = call_("sm", "threshold", purity=0.8, diploid_parx_genome="grch38", is_sample_female=False)
+    X["call-tuple"] = call_("sm", "threshold", fl="FL_tuple")
+    X["call-default-thr"] = call_("sm", "threshold", thr=False)
+    X["call-none-cl"] = call_("cl", "none", fl="FL_sem")
+    X["call-none-purity"] = call_("sm", "none", purity=0.5, is_sample_female=True)
+    X["call-seg"] = call_("seg", "threshold")  # plain segments: no segmetrics columns
+    # ---- do_segmentation: variants, outlier filter off, explicit threshold, R-dataframe flag, HMM x filters / PAR, tables
+    X["segment-haar-vcf"] = seg_("cnr", "haar", "vcf")
+    X["segment-none-vcf"] = seg_("cnr", "none", "vcf_tn")
+    X["segment-hmm-vcf"] = seg_("cnr", "hmm", "vcf")
+    X["segment-haar-noout"] = seg_("cnr", "haar", skip_outliers=0, threshold=0.01)
+    X["segment-haar-outliers"] = seg_("cnr", "haar", skip_outliers=1)
+    X["segment-none-skip"] = seg_("cnr", "none", skip_low=True)
+    X["segment-hmm-skip"] = seg_("cnr", "hmm", skip_low=True, min_weight=0.35)
+    X["segment-hmm-noout"] = seg_("cnr", "hmm-germline", skip_outliers=0, threshold=5)
+    X["segment-hmm-parx"] = seg_("cnr", "hmm-tumor", diploid_parx_genome="grch38")
+    X["segment-haar-parx"] = seg_("cnr", "haar", diploid_parx_genome="grch37")
+    X["segment-haar-nodepth"] = seg_("cnr_nodepth", "haar")
+    X["segment-hmm-nodepth"] = seg_("cnr_nodepth", "hmm")
+    X["segment-none-nodepth"] = seg_("cnr_nodepth", "none", skip_outliers=0)
+    # ---- do_fix: unsorted raw coverages, Picard gc column, no off-target bins, reference without gc / rmask or with
+    #      sub-clusters, single corrections, window fraction, PAR, a sample that mostly has no coverage
+    X["fix-unsorted"] = fix_("tgt_u", "anti_u")
+    X["fix-unsorted-plain"] = fix_("tgt_u", "anti_u", do_gc=False, do_edge=False, do_rmask=False)
+    X["fix-gccol"] = fix_("tgt_gc")
+    # (an empty TARGET table is handed back by load_adjust_coverages as it is and then added to in place:
+    # proposed_fixes/C10-fix-empty-target-changed.md; not generated until repaired)
+    X["fix-noanti"] = fix_(a="anti_0")
+    X["fix-noanti-plain"] = fix_(a="anti_0", do_gc=False, do_edge=False, do_rmask=False)
+    X["fix-refplain"] = fix_(r="ref_plain")
+    X["fix-cluster"] = fix_(r="ref_cl", do_cluster=True)
+    X["fix-cluster-none"] = fix_(do_cluster=True)
+    X["fix-gc-only"] = fix_(do_edge=False, do_rmask=False)
+    X["fix-edge-only"] = fix_(do_gc=False, do_rmask=False)
+    X["fix-rmask-only"] = fix_(do_gc=False, do_edge=False)
+    X["fix-frac"] = fix_(smoothing_window_fraction=0.25)
+    X["fix-parx"] = fix_(diploid_parx_genome="grch38")
+    X["fix-lowcov"] = fix_("tgt_low")
+    X["load_adjust-anti"] = lambda e, p: fix.load_adjust_coverages(e["anti"], e["ref"], False, True, False, True, None)
+    X["load_adjust-empty"] = lambda e, p: fix.load_adjust_coverages(e["anti_0"], e["ref"], False, True, False, True, None)
+    X["center_by_window"] = lambda e, p: fix.center_by_window(e["ref"], 0.2, e["ref"]["gc"])
+    X["apply_weights"] = lambda e, p: fix.apply_weights(e["cnr"], e["ref"], "log2", "spread")
+    X["match_ref"] = lambda e, p: fix.match_ref_to_sample(e["ref"], e["tgt_u"])
+    X["edge_bias"] = lambda e, p: fix.get_edge_bias(e["tgt"], 250)
+    # ---- do_segmetrics / do_genemetrics / do_bintest / do_metrics / do_breaks / do_sex
+    X["segmetrics-none"] = lambda e, p: segmetrics.do_segmetrics(e["cnr"], e["seg"])
+    X["segmetrics-ci-only"] = lambda e, p: segmetrics.do_segmetrics(e["cnr"], e["sm"], interval_stats=e["IVL"][:1], bootstraps=5)
+    X["segmetrics-clb-smooth-skip"] = lambda e, p: segmetrics.do_segmetrics(
+        e["cnr"], e["clb"], ("median",), ("mad",), ("ci",), alpha=0.3, bootstraps=12, smoothed=True, skip_low=True)
+    X["genemetrics-parx"] = lambda e, p: reports.do_genemetrics(e["cnr"], e["cl"], 0.1, 1, diploid_parx_genome="grch38")
+    X["genemetrics-guess"] = lambda e, p: reports.do_genemetrics(e["cnr"], e["clb"], 0.1, 1)
+    X["genemetrics-guess-Y"] = lambda e, p: reports.do_genemetrics(e["cnr"], None, 0.1, 1, is_haploid_x_reference=True)
+    X["genemetrics-bare"] = lambda e, p: reports.do_genemetrics(e["cnr_bare"], None, 0.1, 1, is_sample_female=False)
+    X["genemetrics-bare-seg"] = lambda e, p: reports.do_genemetrics(e["cnr_bare"], e["clb"], 0.0, 0, is_sample_female=True)
+    X["genemetrics-nodepth-skip"] = lambda e, p: reports.do_genemetrics(e["cnr_nodepth"], e["seg"], 0.1, 2, skip_low=True)
+    X["bintest-noseg"] = lambda e, p: bintest.do_bintest(e["cnr"], None, 0.3)
+    X["bintest-clb"] = lambda e, p: bintest.do_bintest(e["cnr"], e["clb"], 0.5, target_only=True)
+    X["bintest-regions"] = lambda e, p: bintest.do_bintest(e["cnr"], e["regions"], 0.5)  # overlapping, gene-less ranges
+    X["metrics-lists"] = lambda e, p: metrics.do_metrics(e["CNRS"], e["SEGS"])
+    X["metrics-many-one"] = lambda e, p: metrics.do_metrics(e["CNRS"], e["seg"], skip_low=True)
+    X["metrics-noseg"] = lambda e, p: metrics.do_metrics(e["cnr"])
+    X["metrics-tuple"] = lambda e, p: metrics.do_metrics(tuple(e["CNRS"]), tuple(e["SEGS"]), skip_low=True)
+    X["breaks-cl"] = lambda e, p: reports.do_breaks(e["cnr"], e["cl"], 0)
+    X["breaks-bare"] = lambda e, p: reports.do_breaks(e["cnr_bare"], e["seg"])
+    X["sex"] = lambda e, p: commands.do_sex(e["CNRS"], False, None)
+    X["sex-Y-parx"] = lambda e, p: commands.do_sex(e["CNRS"], True, "grch38")
+    # ---- exports
+    X["export-bed-variant"] = lambda e, p: export.export_bed(e["cl"], 2, True, None, False, None, "variant")
+    X["export-bed-ploidy-seg"] = lambda e, p: export.export_bed(e["seg"], 2, False, "grch38", False, "S", "ploidy")
+    X["export-vcf-cnarr"] = lambda e, p: export.export_vcf(e["cl"], 2, False, None, True, "S", e["cnr"])
+    X["export-vcf-seg"] = lambda e, p: export.export_vcf(e["seg"], 2, True, "grch38", False, cnarr=e["cnr"])
+    X["export-theta-noref"] = lambda e, p: export.export_theta(e["seg"], None)
+    X["export-theta-sm"] = lambda e, p: export.export_theta(e["sm"], e["ref"])
+    X["export-theta-snps"] = lambda e, p: list(export.export_theta_snps(e["vcf_tn"]))
+    X["export-nexus-basic"] = lambda e, p: export.export_nexus_basic(e["cnr"])
+    # export_nexus_ogt(min_weight > 0) drops the light bins from the caller's array: proposed_fixes/C10-nexus-ogt-drops-callers-bins.md
+    X["export-nexus-ogt"] = lambda e, p: export.export_nexus_ogt(e["cnr"], e["vcf"])
+    X["export-seg-files"] = files_op(cnfiles(("seg", "cl"), "cns"), lambda fns: export.export_seg(fns, chrom_ids=True))
+    X["export-gistic"] = files_op(cnfiles(("cnr", "cnr2"), "cnr"), export.export_gistic_markers)
+    X["export-jtv"] = files_op(cnfiles(("cnr", "cnr2"), "cnr"), lambda fns: (lambda hr: [hr[0], list(hr[1])])(
+        export.fmt_jtv(["x0", "x1"], export.merge_samples(fns))))
+    X["export-cdt"] = files_op(cnfiles(("cnr", "cnr2"), "cnr"), lambda fns: (lambda hr: [hr[0], list(hr[1])])(
+        export.fmt_cdt(["x0", "x1"], export.merge_samples(fns))))
+    # ---- other pipeline steps taking file names / lists
+    X["reference"] = files_op(cohort, lambda tf, af: reference.do_reference(tf, af, None))
+    X["reference-plain-sexed"] = files_op(cohort, lambda tf, af: reference.do_reference(
+        tf, af, None, is_haploid_x_reference=True, female_samples=False, do_gc=False, do_edge=False, do_rmask=False))
+    X["reference-targets-only"] = files_op(lambda e, d: (cohort(e, d, 2)[0],), lambda tf: reference.do_reference(tf))
+    X["reference-gccol-noanti"] = files_op(lambda e, d: cohort(e, d, 3, "tgt_gc", "anti_0"),
+                                           lambda tf, af: reference.do_reference(tf, af, None, do_edge=False))
+    # do_reference(do_cluster=True) draws from the global generator without re-seeding (scipy kmeans2):
+    # proposed_fixes/C10-reference-cluster-unseeded.md
+    X["reference-flat"] = files_op(beds, lambda tp, ap: reference.do_reference_flat(tp, ap, None, True))
+    X["import-theta"] = in_tmp(lambda e, d: _import_theta(e, d, importers))
+    X["target-plain"] = lambda e, p: commands.do_target(e["bait"])
+    X["target-annot-less"] = lambda e, p: commands.do_target(e["regions"], do_short_names=True, do_split=True, avg_size=500)
+    X["antitarget-noaccess"] = lambda e, p: commands.do_antitarget(e["bait"])
+    X["antitarget-min"] = lambda e, p: commands.do_antitarget(e["bait"], e["acc"], 3000, 2500)
+    # ---- plotting entry points: only their arguments are observed
+    X["binwise"] = lambda e, p: plots.update_binwise_positions(e["cnr"], e["seg"])
+    X["binwise-simple"] = lambda e, p: [plots.update_binwise_positions_simple(e["cnr"]), plots.update_binwise_positions_simple(e["seg"])]
+    X["scatter"] = lambda e, p: _plot(lambda: commands.do_scatter(e["cnr"], e["cl"], e["vcf"], do_trend=True))
+    X["scatter-bybin-range"] = lambda e, p: _plot(lambda: commands.do_scatter(
+        e["cnr"], e["seg"], None, show_range=e["CHR1"], by_bin=True))
+    X["heatmap"] = lambda e, p: _plot(lambda: commands.do_heatmap(e["CNRS"], do_desaturate=True))
+    X["heatmap-bybin-range"] = lambda e, p: [_plot(lambda: commands.do_heatmap(e["CNRS"], by_bin=True, delim_sampl=True)),
+                                             _plot(lambda: commands.do_heatmap(e["SEGS"], show_range=e["CHR1"], vertical=True))]
+    X["scatter-gene-range"] = lambda e, p: [
+        _plot(lambda: commands.do_scatter(e["cnr"], e["cl"], e["vcf"], show_gene=_a_gene(e), window_width=5000)),
+        _plot(lambda: commands.do_scatter(e["cnr"], e["seg"], e["vcf_tn"], do_trend=True, y_min=-2, y_max=2, title="t",
+                                          show_range="%s:%d-%d" % (e["CHR1"], e["STARTS"][0], e["ENDS"][1]))),
+        _plot(lambda: commands.do_scatter(None, e["cl"], e["vcf"]))]
+
+    def diagram_(e, d):
+        from cnvlib import diagram
+        fn = os.path.join(d, "d.pdf")
+        diagram.create_diagram(e["cnr"], e["seg"], 0.5, 3, fn, None, "t", False)
+        diagram.create_diagram(None, e["cl"], 0.5, 1, fn, None, None, True)
+        return os.path.isfile(fn)
+    X["diagram"] = in_tmp(diagram_)
+
+    def write_formats(e, d):
+        out = []
+        for key, fmts in (("cl", ("tab", "seg", "bed", "bed3", "bed4", "interval", "text")), ("bait", ("tab", "bed4", "interval", "text")),
+                          ("clb", ("tab", "bed")), ("vcf", ("tab", "bed3"))):
+            for fmt in fmts:
+                fn = os.path.join(d, "%s.%s" % (key, fmt))
+                tabio.write(e[key], fn, fmt)
+                out.append(open(fn).read())
+        return out
+    X["write-formats"] = in_tmp(write_formats)
+    # ---- chained pipeline: every result is the argument of the next step and must come through it unchanged
+    X["chain-batch"] = _chain
+    # ---- array methods
+    m = {}
+    m["center_all-mean"] = lambda c: c.center_all("mean", by_chrom=False)
+    m["center_all-biweight-parx"] = lambda c: c.center_all("biweight", skip_low=True, diploid_parx_genome="grch38")
+    m["center_all-mode"] = lambda c: c.center_all(descriptives.modal_location, verbose=True)
+    m["sort"] = lambda c: c.sort()
+    m["sort_columns"] = lambda c: c.sort_columns()
+    for k, g in m.items():
+        X[k + "-copy"] = (lambda g: lambda e, p: (lambda c: (g(c), c)[1])(e["cnr"].copy()))(g)
+    X["sort-unsorted-copy"] = lambda e, p: (lambda c: (c.sort(), c)[1])(e["tgt_u"].copy())
+
+    def add_copy(e, p):
+        c = e["tgt"].copy()
+        c.add(e["anti"])
+        c.add(e["anti_0"])
+        return c
+    X["add-copy"] = add_copy
+    X["concat"] = lambda e, p: e["cnr"].concat(e["CNRS"])
+    X["concat-gen"] = lambda e, p: e["seg"].concat(a for _c, a in e["cnr"].by_chromosome())
+    X["copy"] = lambda e, p: e["clb"].copy()
+    X["autosomes"] = lambda e, p: [e["cnr"].autosomes(), e["bait"].autosomes(), e["vcf"].autosomes()]
+    X["autosomes-also"] = lambda e, p: [e["cnr"].autosomes(also=e["ALSO"]), e["bait"].autosomes(also=e["CHRX"]),
+                                        e["cnr"].autosomes(diploid_parx_genome="grch38")]
+    # CopyNumArray.autosomes(diploid_parx_genome=.., also=<Series>) ORs into the caller's Series:
+    # proposed_fixes/C10-autosomes-also-series.md
+    X["by_chromosome"] = lambda e, p: list(e["cnr"].by_chromosome())
+    X["by_arm-small"] = lambda e, p: list(e["cnr"].by_arm(min_gap_size=2000, min_arm_bins=3))
+    X["by_arm-seg"] = lambda e, p: list(e["seg"].by_arm())
+    X["by_ranges"] = lambda e, p: [list(e["cnr"].by_ranges(e["seg"])), list(e["vcf"].by_ranges(e["cl"], "inner", False)),
+                                   list(e["cnr"].by_ranges(e["regions"], mode="trim"))]
+    X["in_range"] = lambda e, p: [e["cnr"].in_range(e["CHR1"], e["STARTS"][0], e["ENDS"][1], m) for m in ("outer", "trim", "inner")] + [
+        e["cnr"].in_range(e["CHRX"]), e["cnr"].in_range(e["CHR1"], end=e["ENDS"][0])]
+    X["in_ranges"] = lambda e, p: [e["cnr"].in_ranges(e["CHR1"], e["STARTS"], e["ENDS"], "trim"),
+                                   e["cnr"].in_ranges(e["CHR1"], e["STARTS"], None), e["regions"].in_ranges(e["CHR1"], None, e["ENDS"])]
+    X["into_ranges"] = lambda e, p: [e["cnr"].into_ranges(e["seg"], "log2", 0.0, np.median),
+                                     e["cnr"].into_ranges(e["regions"], "gene", "-"),
+                                     e["cnr"].into_ranges(e["seg"], "nosuch", -1.0)]
+    X["iter_ranges_of"] = lambda e, p: [list(e["cnr"].iter_ranges_of(e["cl"], "weight", "inner", False)),
+                                        list(e["vcf"].iter_ranges_of(e["cnr"], "alt_freq"))]
+    X["coords-labels"] = lambda e, p: [list(e["cnr"].coords()), list(e["cnr"].coords(also=e["ALSOCOLS"])),
+                                       list(e["bait"].coords("gene")), e["seg"].labels()]
+    X["add_columns"] = lambda e, p: e["cnr"].add_columns(weight=e["WTS"].mean(), extra=e["cnr"]["log2"])
+    X["keep_columns"] = lambda e, p: [e["cnr"].keep_columns(e["COLS"]), e["ref"].drop_extra_columns()]
+    X["filter"] = lambda e, p: [e["cnr"].filter(chromosome=e["CHR1"], gene="Antitarget"),
+                                e["cnr"].filter(lambda r: r["log2"] > 0), e["cl"].filter(cn=2)]
+    X["getitem"] = lambda e, p: [e["cnr"][3], e["cnr"][2:9], e["cnr"][e["cnr"]["log2"] > 0], e["cnr"][[]], e["cnr"]["gene"],
+                                 e["cnr"][e["cnr"].data.index[5], "log2"], list(e["seg"])]
+    X["drop_low_coverage"] = lambda e, p: [e["cnr"].drop_low_coverage(verbose=True), e["cnr_nodepth"].drop_low_coverage()]
+    X["squash_genes"] = lambda e, p: e["cnr"].squash_genes()
+    X["squash_genes-anti-tuple"] = lambda e, p: e["cnr"].squash_genes(np.mean, squash_antitarget=True, ignore=e["IG_tuple"])
+    X["squash_genes-ref"] = lambda e, p: e["ref"].squash_genes(summary_func=np.median, ignore=e["IG_list"])
+    for xr in (False, True):
+        for xx in (False, True, None):
+            X["shift_xx-%s%s" % ("Y" if xr else "X", {False: "m", True: "f", None: "g"}[xx])] = (
+                lambda xr, xx: lambda e, p: e["cnr"].shift_xx(xr, xx))(xr, xx)
+    X["shift_xx-parx-seg"] = lambda e, p: e["cl"].shift_xx(False, None, "grch38")
+    X["guess_xx"] = lambda e, p: [e[k].guess_xx(y, g, verbose=v) for k, y, g, v in (
+        ("cnr", False, None, True), ("cnr", True, "grch38", False), ("seg", False, None, True), ("cnr_bare", True, None, True),
+        ("anti_0", False, None, True))]
+    X["compare_sex"] = lambda e, p: [e["cnr"].compare_sex_chromosomes(False, None, True), e["tgt"].compare_sex_chromosomes(True),
+                                     e["cnr_bare"].compare_sex_chromosomes()]
+    X["expect_flat_log2"] = lambda e, p: [e["cnr"].expect_flat_log2(), e["cnr"].expect_flat_log2(True, "grch38"),
+                                          e["cnr"].expect_flat_log2(False)]
+    X["residuals"] = lambda e, p: [e["cnr"].residuals(), e["cnr"].residuals(e["seg"]), e["cnr"].residuals(e["regions"]),
+                                   e["cnr"].residuals(e["acc"])]
+    X["smooth_log2"] = lambda e, p: [e["cnr"].smooth_log2(), e["cnr"].smooth_log2(7, by_arm=False), e["cnr_bare"].smooth_log2()]
+    X["sex-filters"] = lambda e, p: [e["cnr"].chr_x_filter(), e["cnr"].chr_y_filter("grch38"), e["cnr"].parx_filter("grch37"),
+                                     e["cnr"].pary_filter("grch38"), e["cnr"].chr_x_label, e["cnr"].chr_y_label]
+    X["total_range_size"] = lambda e, p: [e["cnr"].total_range_size(), e["regions"].total_range_size(), e["anti_0"].total_range_size()]
+    X["resize-neg"] = lambda e, p: e["cnr"].resize_ranges(-120)
+    X["resize-chromsizes"] = lambda e, p: e["cnr"].resize_ranges(4000, chrom_sizes=e["CHROMSIZES"])
+    X["merge-bp"] = lambda e, p: e["regions"].merge(bp=500)
+    X["merge-default"] = lambda e, p: e["bait"].merge()
+    X["flatten-combine"] = lambda e, p: e["regions"].flatten(combine={"gene": "|".join})
+    X["flatten-fast"] = lambda e, p: e["bait"].flatten()
+    X["subtract-self"] = lambda e, p: [e["regions"].subtract(e["bait"]), e["acc"].subtract(e["regions"])]
+    X["intersection-outer"] = lambda e, p: [e["cnr"].intersection(e["regions"]), e["cnr"].intersection(e["seg"], mode="inner"),
+                                            e["vcf"].intersection(e["bait"])]
+    X["subdivide-min"] = lambda e, p: e["acc"].subdivide(20000, 5000, verbose=True)
+    X["by_gene-seg"] = lambda e, p: [(k, a) for k, a in e["seg"].by_gene()]
+    X["gene_intervals-tuple"] = lambda e, p: dict(reports.get_gene_intervals(e["cnr"], e["IG_tuple"]))
+    X["transfer_fields-tuple-bare"] = lambda e, p: segmentation.transfer_fields(e["seg"].copy(), e["cnr_bare"], ignore=e["IG_tuple"])
+    X["transfer_fields-nodepth"] = lambda e, p: segmentation.transfer_fields(e["seg"].copy(), e["cnr_nodepth"])
+    X["drop_outliers"] = lambda e, p: segmentation.drop_outliers(e["cnr"], 10, 1)
+    X["group_by_genes"] = lambda e, p: list(reports.group_by_genes(e["cnr"], True))
+    X["segment_mean"] = lambda e, p: [segmetrics.segment_mean(e["cnr"]), segmetrics.segment_mean(e["cnr"], True),
+                                      segmetrics.segment_mean(e["cnr_bare"])]
+    for fl in ("ampdel", "ci", "cn", "sem"):
+        X["segfilter-" + fl] = (lambda fl: lambda e, p: getattr(segfilters, fl)(e["clb"]))(fl)
+    X["squash_by_groups-arm"] = lambda e, p: segfilters.squash_by_groups(e["clb"], e["clb"]["cn"], by_arm=True)
+    X["absolutes"] = lambda e, p: [call.absolute_clonal(e["seg"], 2, 0.7, True, None, True), call.absolute_pure(e["seg"], 2, False),
+                                   call.absolute_threshold(e["seg"], 2, e["THR"], True), call.absolute_expect(e["seg"], 2, "grch38", False),
+                                   call.absolute_reference(e["seg"], 4, None, True),
+                                   call.absolute_dataframe(e["cl"], 2, 0.5, False, None, False)]
+    X["log2_ratios"] = lambda e, p: call.log2_ratios(e["cl"], e["cl"]["cn"].astype(float), 2, True, None, round_to_int=True)
+    X["rescale_baf"] = lambda e, p: call.rescale_baf(0.6, e["clb"]["baf"])
+    X["assign_ci"] = lambda e, p: export.assign_ci_start_end(e["seg"], e["cnr"])
+    # ---- VariantArray methods
+    X["baf_by_ranges"] = lambda e, p: [e["vcf"].baf_by_ranges(e["cnr"]), e["vcf_tn"].baf_by_ranges(e["seg"], above_half=True, tumor_boost=True),
+                                       e["vcf"].baf_by_ranges(e["seg"], summary_func=np.nanmean, above_half=False)]
+    X["het_frac"] = lambda e, p: [e["vcf"].het_frac_by_ranges(e["seg"]), e["vcf_tn"].het_frac_by_ranges(e["cnr"])]
+    X["zygosity_from_freq"] = lambda e, p: [e["vcf"].zygosity_from_freq(0.25, 0.9), e["vcf_tn"].zygosity_from_freq()]
+    X["heterozygous"] = lambda e, p: [e["vcf"].heterozygous(), e["vcf_tn"].heterozygous()]
+    X["mirrored_baf"] = lambda e, p: [e["vcf"].mirrored_baf(), e["vcf"].mirrored_baf(True), e["vcf_tn"].mirrored_baf(False, True),
+                                      e["vcf_tn"].tumor_boost()]
+    # ---- numeric helpers on caller-owned numpy arrays / Series
+    X["descriptives"] = lambda e, p: [f(e["LOGV"]) for f in (
+        descriptives.biweight_location, descriptives.modal_location, descriptives.biweight_midvariance, descriptives.gapper_scale,
+        descriptives.interquartile_range, descriptives.median_absolute_deviation, descriptives.mean_squared_error, descriptives.q_n)] + [
+        f(e["LOGV"], e["WTS"]) for f in (descriptives.weighted_median, descriptives.weighted_mad, descriptives.weighted_std)]
+    X["descriptives-series"] = lambda e, p: [f(e["cnr"]["log2"]) for f in (
+        descriptives.biweight_location, descriptives.modal_location, descriptives.biweight_midvariance,
+        descriptives.median_absolute_deviation)] + [descriptives.weighted_median(e["cnr"]["log2"], e["cnr"]["weight"])]
+    X["smoothing"] = lambda e, p: [smoothing.rolling_median(e["LOGV"], 0.2), smoothing.rolling_quantile(e["LOGV"], 7, 0.8),
+                                   smoothing.rolling_std(e["LOGV"], 9), smoothing.savgol(e["LOGV"], 11, weights=e["WTS"]),
+                                   smoothing.savgol(e["cnr"]["log2"], 0.3), smoothing.kaiser(e["LOGV"], 9, weights=e["WTS"]),
+                                   smoothing.guess_window_size(e["LOGV"], e["WTS"]), smoothing.outlier_iqr(e["LOGV"]),
+                                   smoothing.outlier_mad_median(e["LOGV"]), smoothing.rolling_outlier_iqr(e["cnr"]["log2"], 9),
+                                   smoothing.rolling_outlier_quantile(e["cnr"]["log2"], 9, 0.9, 2), smoothing.rolling_outlier_std(e["LOGV"], 9, 2)]
+    X["bintest-helpers"] = lambda e, p: [bintest.z_prob(e["cnr"]), bintest.p_adjust_bh(np.abs(np.tanh(e["LOGV"]))),
+                                         metrics.ests_of_scale(e["LOGV"])]
+    X["ci-bootstrap"] = lambda e, p: [segmetrics.confidence_interval_bootstrap(e["LOGV"], e["WTS"], 0.1, 25, sm) for sm in (False, True)]
+    X["reference-helpers"] = lambda e, p: [reference.reference2regions(e["ref"]), reference.warn_bad_bins(e["ref"])]
+    return {k: quiet(f) for k, f in X.items()}
+
+
+def _a_gene(e):
+    return [g for g in e["cnr"]["gene"] if g.startswith("G")][0]
+
+
+def _plot(f):
+    """a plotting entry point: the figure is not a table, only the arguments are observed"""
+    import matplotlib
+    matplotlib.use("Agg")
+    from matplotlib import pyplot
+    try:
+        f()
+    finally:
+        pyplot.close("all")
+    return None
+
+
+def _import_theta(e, d, importers):
+    seg = e["seg"]
+    n = len(seg.autosomes())
+    fn = os.path.join(d, "theta.results")
+    cs = [str((3 * k) % 5) if k % 6 else "X" for k in range(n)]
+    with open(fn, "w") as h:
+        h.write("#NLL\tmu\tC\tp*\n12.5\t0.3,0.7\t%s\t%s\n" % (":".join(cs), ",".join("0.5" for _ in cs)))
+    return list(importers.do_import_theta(seg, fn, ploidy=2))
+
+
+def _chain(e, p):
+    """fix -> segment -> segmetrics -> call -> genemetrics / bintest / export, as `batch` chains them; every
+    intermediate result is fingerprinted when it is made and again at the end"""
+    from cnvlib import bintest, call, export, fix, reports, segmentation, segmetrics
+    made = []
+
+    def keep(name, x):
+        made.append((name, x, arg_digest(x)))
+        return x
+    cnr = keep("cnr", fix.do_fix(e["tgt"], e["anti"], e["ref"]))
+    seg = keep("seg", segmentation.do_segmentation(cnr, "haar", processes=p))
+    sm = keep("sm", segmetrics.do_segmetrics(cnr, seg, e["LOC"], e["SPR"], e["IVL"], bootstraps=10))
+    fl = ["ci", "cn"]
+    cl = keep("cl", call.do_call(sm, e["vcf"], "clonal", purity=0.7, is_sample_female=True, filters=fl))
+    gm = reports.do_genemetrics(cnr, cl, 0.1, 1, is_sample_female=True)
+    bt = bintest.do_bintest(cnr, cl, 0.3)
+    bed = export.export_bed(cl, 2, False, None, True, None, "all")
+    vcfout = export.export_vcf(cl, 2, False, None, True, cnarr=cnr)
+    fl2 = ["cn"]
+    cl2 = call.do_call(cl, method="threshold", filters=fl2)
+    for name, x, dg in made:
+        _unchanged("intermediate result `%s` of the chain" % name, x, dg)
+    if fl != ["ci", "cn"] or fl2 != ["cn"]:
+        raise ArgumentChanged("filter list of the chain")
+    return [cnr, seg, sm, cl, gm, bt, bed, vcfout, cl2]
 
 
 _OPS = None
@@ -360,14 +945,60 @@ def ops():
 BASE_OPS = ["target", "antitarget", "fix", "fix-plain", "segment-none", "segment-haar", "segment-haar-skip", "segment-hmm",
             "segment-hmm-tumor", "segment-hmm-germline", "segmetrics", "segmetrics-smooth", "call-none",
             "call-threshold", "call-clonal", "call-ci-cn", "call-sem", "call-ampdel", "call-cc", "genemetrics",
-            "genemetrics-seg", "genemetrics-cl", "genemetrics-cl-Xf", "genemetrics-cl-Xm", "genemetrics-sm-Yf", "genemetrics-sm-Ym",
+            "genemetrics-seg", "genemetrics-cl",
             "bintest-target", "segmetrics-skip", "breaks", "bintest", "metrics", "export-bed", "export-vcf", "export-seg", "export-theta",
             "center_all-copy", "shuffle-copy", "merge", "flatten", "subtract", "intersection", "subdivide", "resize", "by_arm",
             "by_gene", "by_gene-list", "by_gene-tuple", "squash_genes-list", "transfer_fields-list",
             "gene_intervals-list"]
 PAR_OPS = ["%s@p%d" % (b, p) for b in ("segment-none", "segment-haar", "segment-haar-skip") for p in (2, 3, 16)] + [
     "segment-hmm-germline@p3"]
-SMALL_USE = {"call-ci-cn": [["filters", "FL_ci_cn"]], "call-sem": [["filters", "FL_sem"]],
+EXT_OPS = ["genemetrics-cl-Xf", "genemetrics-cl-Xm", "genemetrics-sm-Yf", "genemetrics-sm-Ym",  # (reference X x sample sex)
+           "call-vcf", "call-vcf-purity", "call-vcf-thr-purity", "call-clb", "call-clb-purity", "call-clonal-Yf",
+           "call-clonal-Xm", "call-clonal-pure-Y", "call-parx", "call-tuple", "call-default-thr", "call-none-cl",
+           "call-none-purity", "call-seg", "segment-haar-vcf", "segment-none-vcf", "segment-hmm-vcf",
+           "segment-haar-noout", "segment-haar-outliers", "segment-none-skip", "segment-hmm-skip",
+           "segment-hmm-noout", "segment-hmm-parx", "segment-haar-parx", "segment-haar-nodepth",
+           "segment-hmm-nodepth", "segment-none-nodepth", "fix-unsorted", "fix-unsorted-plain", "fix-gccol",
+           "fix-noanti", "fix-noanti-plain", "fix-refplain", "fix-cluster", "fix-cluster-none", "fix-gc-only",
+           "fix-edge-only", "fix-rmask-only", "fix-frac", "fix-parx", "fix-lowcov", "load_adjust-anti",
+           "load_adjust-empty", "center_by_window", "apply_weights", "match_ref", "edge_bias", "segmetrics-none",
+           "segmetrics-ci-only", "segmetrics-clb-smooth-skip", "genemetrics-parx", "genemetrics-guess",
+           "genemetrics-guess-Y", "genemetrics-bare", "genemetrics-bare-seg", "genemetrics-nodepth-skip",
+           "bintest-noseg", "bintest-clb", "bintest-regions", "metrics-lists", "metrics-many-one", "metrics-noseg",
+           "metrics-tuple", "breaks-cl", "breaks-bare", "sex", "sex-Y-parx", "export-bed-variant",
+           "export-bed-ploidy-seg", "export-vcf-cnarr", "export-vcf-seg", "export-theta-noref", "export-theta-sm",
+           "export-theta-snps", "export-nexus-basic", "export-nexus-ogt", "export-seg-files", "export-gistic",
+           "export-jtv", "export-cdt", "reference", "reference-plain-sexed", "reference-targets-only", "reference-gccol-noanti",
+           "reference-flat", "import-theta", "target-plain", "target-annot-less", "antitarget-noaccess",
+           "antitarget-min", "binwise", "binwise-simple", "scatter", "scatter-bybin-range", "heatmap", "heatmap-bybin-range", "scatter-gene-range", "diagram", "write-formats", "chain-batch",
+           "center_all-mean-copy", "center_all-biweight-parx-copy", "center_all-mode-copy", "sort-copy",
+           "sort_columns-copy", "sort-unsorted-copy", "add-copy", "concat", "concat-gen", "copy", "autosomes",
+           "autosomes-also", "by_chromosome", "by_arm-small", "by_arm-seg", "by_ranges", "in_range", "in_ranges",
+           "into_ranges", "iter_ranges_of", "coords-labels", "add_columns", "keep_columns", "filter", "getitem",
+           "drop_low_coverage", "squash_genes", "squash_genes-anti-tuple", "squash_genes-ref", "shift_xx-Xm",
+           "shift_xx-Xf", "shift_xx-Xg", "shift_xx-Ym", "shift_xx-Yf", "shift_xx-Yg", "shift_xx-parx-seg", "guess_xx",
+           "compare_sex", "expect_flat_log2", "residuals", "smooth_log2", "sex-filters", "total_range_size",
+           "resize-neg", "resize-chromsizes", "merge-bp", "merge-default", "flatten-combine", "flatten-fast",
+           "subtract-self", "intersection-outer", "subdivide-min", "by_gene-seg", "gene_intervals-tuple",
+           "transfer_fields-tuple-bare", "transfer_fields-nodepth", "drop_outliers", "group_by_genes", "segment_mean",
+           "segfilter-ampdel", "segfilter-ci", "segfilter-cn", "segfilter-sem", "squash_by_groups-arm", "absolutes",
+           "log2_ratios", "rescale_baf", "assign_ci", "baf_by_ranges", "het_frac", "zygosity_from_freq",
+           "heterozygous", "mirrored_baf", "descriptives", "descriptives-series", "smoothing", "bintest-helpers",
+           "ci-bootstrap", "reference-helpers"]
+# slow steps whose arguments no other step shares in an interesting way: no sampled partners in the quick tier
+HEAVY_EXT = {"scatter", "scatter-bybin-range", "scatter-gene-range", "heatmap", "heatmap-bybin-range", "diagram", "chain-batch",
+             "reference", "reference-plain-sexed", "reference-gccol-noanti"}
+EXT_PAR = ["segment-haar-vcf@p2", "segment-haar-noout@p3", "segment-none-skip@p2", "segment-haar-nodepth@p16", "segment-hmm-skip@p2",
+           "chain-batch@p3"]
+SMALL_USE = {"call-vcf-thr-purity": [["filters", "FL_cc"]], "call-clb": [["filters", "FL_ampdel"]],
+             "call-none-cl": [["filters", "FL_sem"]], "call-tuple": [["read", "FL_tuple"]],
+             "squash_genes-anti-tuple": [["ignore", "IG_tuple"]], "squash_genes-ref": [["ignore", "IG_list"]],
+             "gene_intervals-tuple": [["ignore", "IG_tuple"]], "transfer_fields-tuple-bare": [["ignore", "IG_tuple"]],
+             "keep_columns": [["read", "COLS"]], "autosomes-also": [["read", "ALSO"]], "coords-labels": [["read", "ALSOCOLS"]],
+             "in_range": [["read", "STARTS"], ["read", "ENDS"]], "in_ranges": [["read", "STARTS"], ["read", "ENDS"]],
+             "segmetrics-ci-only": [["read", "IVL"]], "chain-batch": [["read", "LOC"], ["read", "SPR"], ["read", "IVL"]],
+             "absolutes": [["read", "THR"]],
+             "call-ci-cn": [["filters", "FL_ci_cn"]], "call-sem": [["filters", "FL_sem"]],
              "call-ampdel": [["filters", "FL_ampdel"]], "call-cc": [["filters", "FL_cc"]],
              "by_gene-list": [["ignore", "IG_list"]], "by_gene-tuple": [["ignore", "IG_tuple"]],
              "squash_genes-list": [["ignore", "IG_empty"]], "transfer_fields-list": [["ignore", "IG_list"]],
@@ -400,7 +1031,8 @@ def reference_result(ds_seed, base):
 # ---------------------------------------------------------------------------------------------
 # op `history`
 
-HEAP_NAMES = ["FL_ci_cn", "FL_sem", "FL_ampdel", "FL_cc", "IG_list", "IG_empty", "IG_tuple", "THR", "LOC", "SPR", "IVL"]
+HEAP_NAMES = ["FL_ci_cn", "FL_sem", "FL_ampdel", "FL_cc", "IG_list", "IG_empty", "IG_tuple", "THR", "LOC", "SPR", "IVL",
+              "FL_tuple", "COLS", "ALSO", "ALSOCOLS", "STARTS", "ENDS"]
 READS = {"segmetrics": ["LOC", "SPR", "IVL"], "segmetrics-smooth": ["LOC", "SPR", "IVL"]}
 PREFIX = bool(os.environ.get("C10_PREFIX_MODEL"))  # development: the model of the code before fix J
 
@@ -427,7 +1059,7 @@ def _heap(env):
 
 
 def _tables(env):
-    return sorted([k, arg_digest(v)] for k, v in env.items() if k not in HEAP_NAMES)
+    return sorted([k, d] for k, d in env.fingerprints().items() if k not in HEAP_NAMES)
 
 
 def _run_history(case):
@@ -459,6 +1091,7 @@ def _run_ensure_path(case):
     from cnvlib import core as cnvcore
     i = case["in"]
     root = tempfile.mkdtemp(dir="/var/tmp", prefix="c10ep")
+    cwd = os.getcwd()
     try:
         d = os.path.join(root, "d")
         os.mkdir(d)
@@ -469,6 +1102,9 @@ def _run_ensure_path(case):
                 f.write(tok)
         texts = {tok: tok for _n, tok in i["pre"]}
         target = os.path.join(d, i["path"])
+        if i.get("rel"):  # the path as a CLI user gives it: relative to the working directory ("out.cnn", "./out.cnn", "sub/out.cnn")
+            os.chdir(d)
+            target = {"plain": "", "dot": "./", "dotdot": "../d/"}[i["rel"]] + i["path"]
         for k in range(i["writes"]):
             arr = _tiny(k)
             refp = os.path.join(root, "ref%d" % k)
@@ -476,7 +1112,7 @@ def _run_ensure_path(case):
             texts[open(refp).read()] = "w%d" % k
             if i["guarded"]:
                 cnvcore.ensure_path(target)
-            else:
+            elif os.path.dirname(target):
                 os.makedirs(os.path.dirname(target), exist_ok=True)
             tabio.write(arr, target)
         files = []
@@ -487,6 +1123,7 @@ def _run_ensure_path(case):
                 files.append([os.path.relpath(p, d), texts.get(t, "?" + hashlib.sha1(t.encode()).hexdigest()[:8])])
         return {"files": sorted(files)}
     finally:
+        os.chdir(cwd)
         shutil.rmtree(root, ignore_errors=True)
 
 
@@ -521,12 +1158,29 @@ class _Recorder:
                     self.trace.append(["draw", name])
                 return orig(*a, **k)
             return f
+        def wrap_class(name, orig):
+            # a class must stay a class (libraries test isinstance(x, np.random.RandomState)): a recording subclass
+            # whose instance check is the original's
+            trace = self.trace
+
+            class Meta(type(orig)):
+                def __instancecheck__(cls, inst):
+                    return isinstance(inst, orig)
+
+            class Recording(orig, metaclass=Meta):
+                def __init__(self, *a, **k):
+                    c = a[0] if a else k.get("seed")
+                    if not (isinstance(c, int) and not isinstance(c, bool)):
+                        trace.extend([["seed", None], ["draw", name]])
+                    super().__init__(*a, **k)
+            Recording.__name__ = name
+            return Recording
         for mod, names in ((np.random, _NP_RANDOM), (_pyrandom, _PY_RANDOM)):
             for n in names:
                 if hasattr(mod, n):
                     orig = getattr(mod, n)
                     self.saved.append((mod, n, orig))
-                    setattr(mod, n, wrap(mod, n, orig))
+                    setattr(mod, n, wrap_class(n, orig) if isinstance(orig, type) else wrap(mod, n, orig))
         return self
 
     def __exit__(self, *a):
@@ -559,20 +1213,52 @@ def _trace_entries():
     def doref(e, v):
         d = tempfile.mkdtemp(dir="/var/tmp", prefix="c10ref")
         try:
-            tf, af = [], []
-            for s in range(v.get("samples", 2)):
-                t, a = e["tgt"].copy(), e["anti"].copy()
-                t["log2"] = t["log2"] + 0.01 * s
-                tp, ap = os.path.join(d, "s%d.targetcoverage.cnn" % s), os.path.join(d, "s%d.antitargetcoverage.cnn" % s)
-                tabio.write(t, tp)
-                tabio.write(a, ap)
-                tf.append(tp)
-                af.append(ap)
-            return reference.do_reference(tf, af, None, do_gc=False, do_edge=v.get("edge", True), do_rmask=False)
+            tf, af = _cohort_files(e, d, v.get("samples", 2), v.get("tkey", "tgt"))
+            return reference.do_reference(tf, af, None, do_gc=v.get("gc", False), do_edge=v.get("edge", True), do_rmask=False)
         finally:
             shutil.rmtree(d, ignore_errors=True)
 
+    def with_cohort(fun):
+        def f(e, v):
+            d = tempfile.mkdtemp(dir="/var/tmp", prefix="c10ref")
+            try:
+                tf, af = _cohort_files(e, d, v.get("samples", 2), v.get("tkey", "tgt"))
+                return fun(e, v, tf, af)
+            finally:
+                shutil.rmtree(d, ignore_errors=True)
+        return f
+
+    def bcl(e, v):
+        c = e["tgt_gc"].copy()
+        cols = {"gc": c["gc"]} if v.get("gc", True) else {}
+        if v.get("rmask"):
+            cols["rmask"] = c["gc"] * 0.5
+        flat = c.expect_flat_log2(False)
+        return reference.bias_correct_logr(c, cols, fix.get_edge_bias(c, 250), flat, {c.sample_id: True}, c.chr_x_filter(),
+                                           c.chr_y_filter(), v.get("gc", True), v.get("edge", True), v.get("rmask", False), True, None)
+
+    def rnacorr(e, v):
+        from cnvlib import rna
+        c = e["ref"].copy()
+        c["tx_length"] = (c.end - c.start).astype(float)
+        return rna.correct_cnr(c, v.get("gc", True), v.get("txlen", True), 3.0, None)
+
+    from cnvlib import bintest, export, metrics
     return {
+        "cnvlib.reference.bias_correct_logr": bcl,
+        "cnvlib.reference.load_sample_block": with_cohort(lambda e, v, tf, af: reference.load_sample_block(
+            tf, None, False, None, {}, True, v.get("gc", True), v.get("edge", True), False)),
+        "cnvlib.reference.combine_probes": with_cohort(lambda e, v, tf, af: reference.combine_probes(
+            tf, af if v.get("anti", True) else None, None, False, None, {}, True, v.get("edge", True), True, False, 4)),
+        "cnvlib.rna.correct_cnr": rnacorr,
+        "cnvlib.bintest.do_bintest": lambda e, v: bintest.do_bintest(e["cnr"], e["seg"], 0.2),
+        "cnvlib.metrics.do_metrics": lambda e, v: metrics.do_metrics(e["CNRS"], e["SEGS"]),
+        "cnvlib.export.export_vcf": lambda e, v: export.export_vcf(e["cl"], 2, False, None, True, cnarr=e["cnr"]),
+        "cnvlib.vary.VariantArray.baf_by_ranges": lambda e, v: e["vcf_tn"].baf_by_ranges(e["seg"], tumor_boost=True),
+        "cnvlib.segmentation.hmm.variants_in_segment": lambda e, v: segmentation.do_segmentation(e["cnr"], "haar", variants=e["vcf"]),
+        "cnvlib.reports.do_breaks": lambda e, v: reports.do_breaks(e["cnr"], e["seg"]),
+        # cnvlib.cluster.kmeans (do_reference / combine_probes with do_cluster=True) draws from numpy's global generator
+        # inside scipy without re-seeding: proposed_fixes/C10-reference-cluster-unseeded.md; not generated until fixed
         "cnvlib.fix.center_by_window": cbw,
         "cnvlib.fix.do_fix": lambda e, v: fix.do_fix(e["tgt"], e["anti"], e["ref"], do_gc=v.get("gc", True),
                                                      do_edge=v.get("edge", True), do_rmask=v.get("rmask", True)),
@@ -593,14 +1279,26 @@ def _trace_entries():
     }
 
 
+def _rng_states():
+    import numpy as np
+    st = np.random.get_state()
+    return hashlib.sha1(repr((st[0], st[1].tobytes(), st[2:], _pyrandom.getstate())).encode()).hexdigest()
+
+
 def _run_rng_trace(case):
     i = case["in"]
     env = fresh_env(i["ds"])
     f = _trace_entries()[i["fn"]]
     _seed_rngs(i.get("seed", 1))
+    st0 = _rng_states()
     with _Recorder() as rec:
         f(env, i.get("variant", {}))
-    return {"trace": rec.trace}
+    trace = rec.trace
+    if not trace and _rng_states() != st0:
+        # the global generators moved although no call went through the module-level functions (a library drawing
+        # from numpy's singleton RandomState directly, e.g. scipy.cluster.vq.kmeans2): an unseeded draw
+        trace = [["draw", "hidden"]]
+    return {"trace": trace}
 
 
 # ---------------------------------------------------------------------------------------------
@@ -735,9 +1433,10 @@ def _ensure_case(rng, tag="ensure_path"):
     if rng.random() < 0.15:  # many consecutive backups already there
         pre = [path] + [path + ".%d" % j for j in range(1, rng.randint(2, 12))]
     pre = sorted(set(pre))
-    return {"op": "ensure_path", "tag": tag + ("-existing" if path in pre else "-new"),
+    rel = rng.choice([None, None, "plain", "dot", "dotdot"])
+    return {"op": "ensure_path", "tag": tag + ("-existing" if path in pre else "-new") + ("-rel" if rel else ""),
             "in": {"pre": [[n, "pre:%d:%s" % (j, n)] for j, n in enumerate(pre)], "path": path,
-                   "writes": rng.randint(1, 5), "guarded": True}}
+                   "writes": rng.randint(1, 5), "guarded": True, "rel": rel}}
 
 
 TRACE_VARIANTS = {
@@ -749,14 +1448,23 @@ TRACE_VARIANTS = {
     "cnvlib.segmetrics._smooth_samples_by_weight": [{}, {"n": 0}],
     "cnvlib.segmetrics.make_ci_func": [{}],
     "cnvlib.segmetrics.do_segmetrics": [{}, {"smoothed": True, "bootstraps": 10}, {"ivl": ["pi"]}, {"ivl": ["ci"], "alpha": 0.2}],
-    "cnvlib.reference.do_reference": [{}, {"edge": False}, {"samples": 1}],
+    "cnvlib.reference.do_reference": [{}, {"edge": False}, {"samples": 1}, {"tkey": "tgt_gc", "gc": True}],
+    "cnvlib.reference.bias_correct_logr": [{}, {"gc": False}, {"edge": False, "rmask": True}, {"gc": False, "edge": False}],
+    "cnvlib.reference.load_sample_block": [{}, {"tkey": "tgt_gc"}, {"tkey": "tgt_gc", "edge": False, "samples": 3}, {"gc": False, "edge": False}],
+    "cnvlib.reference.combine_probes": [{}, {"anti": False, "tkey": "tgt_gc"}, {"edge": False}],
+    "cnvlib.rna.correct_cnr": [{}, {"txlen": False}, {"gc": False, "txlen": False}],
+    "cnvlib.bintest.do_bintest": [{}], "cnvlib.metrics.do_metrics": [{}], "cnvlib.export.export_vcf": [{}],
+    "cnvlib.vary.VariantArray.baf_by_ranges": [{}], "cnvlib.segmentation.hmm.variants_in_segment": [{}],
+    "cnvlib.reports.do_breaks": [{}],
     "skgenome.gary.GenomicArray.shuffle": [{}],
     "cnvlib.segmentation.do_segmentation": [{"method": "haar"}, {"method": "hmm"}, {"method": "hmm-tumor"},
                                             {"method": "hmm-germline"}, {"method": "none"}],
     "cnvlib.call.do_call": [{}],
     "cnvlib.reports.do_genemetrics": [{}],
 }
-UNLISTED = {"cnvlib.segmentation.do_segmentation", "cnvlib.call.do_call", "cnvlib.reports.do_genemetrics"}
+UNLISTED = {"cnvlib.segmentation.do_segmentation", "cnvlib.call.do_call", "cnvlib.reports.do_genemetrics",
+            "cnvlib.bintest.do_bintest", "cnvlib.metrics.do_metrics", "cnvlib.export.export_vcf",
+            "cnvlib.vary.VariantArray.baf_by_ranges", "cnvlib.segmentation.hmm.variants_in_segment", "cnvlib.reports.do_breaks"}
 
 
 def _trace_cases(rng, ds, n):
@@ -774,7 +1482,7 @@ def _trace_cases(rng, ds, n):
 
 def _gather_case(rng):
     n = rng.choice([0, 1, 2, 3, 5, 8, 12])
-    procs = rng.choice([1, 2, 3, 16])
+    procs = rng.choice([1, 2, 3, 16, 2, 3, 0])  # 0 (or less): "as many as there are CPUs"
     xs = [rng.randint(-50, 50) for _ in range(n)]
     k = rng.random()
     if k < 0.5:  # later tasks finish first
@@ -784,43 +1492,68 @@ def _gather_case(rng):
     return {"op": "gather", "tag": "p%d" % procs, "in": {"xs": xs, "delays": delays, "procs": procs}}
 
 
+def _ds_id(rng, k):
+    """data-set ids cycle through the representations: even k = plain tables (0..n-1 index, chr names, chrY present),
+    odd k = alternative (filtered subsets, permuted optional columns, Ensembl names); the other bits are random"""
+    s = rng.randrange(1, 10 ** 6) * 16
+    return s + (rng.randrange(2)) + 2 * (k % 2) + 4 * (rng.randrange(3) if k % 2 == 0 else rng.randrange(4))
+
+
 def gen_cases(rng, tier):
     cases = []
     nds = {"quick": 2, "thorough": 4, "search": 2}[tier]
-    dss = [rng.randrange(1, 10 ** 6) for _ in range(nds)]
+    dss = [_ds_id(rng, k) for k in range(nds)]
     allops = BASE_OPS + PAR_OPS
+    ext = EXT_OPS + EXT_PAR
     if tier == "quick":
-        # exhaustive: every history of length <= 2 over the base alphabet; worker-count variants with sampled partners
+        # exhaustive: every history of length <= 2 over the base alphabet; worker-count variants and the extension ops
+        # alone on both representations, repeated, and before / after a sampled partner
         for n in allops:
-            cases.append(_hist(dss[0], [n], rng, "len1"))
+            for ds in dss:
+                cases.append(_hist(ds, [n], rng, "len1"))
         for a in BASE_OPS:
             for b in BASE_OPS:
                 cases.append(_hist(dss[(BASE_OPS.index(a) + BASE_OPS.index(b)) % nds], [a, b], rng, "len2"))
         for a in PAR_OPS:
-            for b in rng.sample(BASE_OPS, 4) + [a, base_of(a)]:
+            for b in rng.sample(BASE_OPS, 3) + [a, base_of(a)]:
                 cases.append(_hist(rng.choice(dss), [a, b], rng, "len2-workers"))
                 cases.append(_hist(rng.choice(dss), [b, a], rng, "len2-workers"))
-        n_ep, n_tr, n_ga, n_long = 160, 100, 24, 60
+        for k, a in enumerate(ext):
+            # alone on one representation, repeated on the other (the first step of that history is `a` alone)
+            cases.append(_hist(dss[k % nds], [a, a], rng, "len2-ext"))
+            cases.append(_hist(dss[(k + 1) % nds], [a], rng, "len1-ext"))
+            if base_of(a) not in HEAVY_EXT:
+                cases.append(_hist(dss[(k + 1) % nds], [a, rng.choice(BASE_OPS + EXT_OPS)], rng, "len2-ext"))
+                cases.append(_hist(dss[k % nds], [rng.choice(BASE_OPS + EXT_OPS), a], rng, "len2-ext"))
+        n_ep, n_tr, n_ga, n_long = 160, 140, 24, 40
     elif tier == "thorough":
-        for n in allops:
+        for n in allops + ext:
             for ds in dss:
-                cases.append(_hist(ds, [n], rng, "len1"))
+                cases.append(_hist(ds, [n], rng, "len1" if n in allops else "len1-ext"))
         for a in allops:
             for b in allops:
                 if not (a.endswith("@p16") and b.endswith("@p16")):
                     cases.append(_hist(rng.choice(dss), [a, b], rng, "len2"))
-        n_ep, n_tr, n_ga, n_long = 1200, 100, 80, 3500
+        for a in ext:
+            for b in [a] + rng.sample(allops + ext, 14):
+                cases.append(_hist(rng.choice(dss), [a, b], rng, "len2-ext"))
+                cases.append(_hist(rng.choice(dss), [b, a], rng, "len2-ext"))
+        n_ep, n_tr, n_ga, n_long = 1200, 140, 80, 3500
     else:  # search: biased to the steps that reach the generators, the pools and the list arguments
-        n_ep, n_tr, n_ga, n_long = 200, 100, 10, 500
+        n_ep, n_tr, n_ga, n_long = 200, 140, 10, 500
+    allops = allops + ext
     hot = ["fix", "segmetrics", "segmetrics-smooth", "call-ci-cn", "call-sem", "call-cc", "by_gene-list", "squash_genes-list",
-           "transfer_fields-list", "gene_intervals-list", "call-threshold", "center_all-copy", "merge", "export-vcf"] + PAR_OPS
+           "transfer_fields-list", "gene_intervals-list", "call-threshold", "center_all-copy", "merge", "export-vcf",
+           "call-vcf-thr-purity", "call-clb", "fix-unsorted", "fix-noanti", "segment-hmm-vcf", "segmetrics-clb-smooth-skip",
+           "reference", "chain-batch", "metrics-lists", "squash_genes-ref", "genemetrics-guess"] + PAR_OPS + EXT_PAR
     for _ in range(n_long):
         ln = rng.choice([3, 4, 4]) if tier != "search" else rng.choice([1, 2, 3])
         names = [rng.choice(hot if (tier == "search" or rng.random() < 0.35) else allops) for _ in range(ln)]
         if rng.random() < 0.3:
             names[-1] = names[0]  # repeated
         # keep the 16-worker pools rare: they dominate the wall time
-        names = [n if not n.endswith("@p16") or rng.random() < 0.3 else n.replace("@p16", "@p2") for n in names]
+        names = [n if not n.endswith("@p16") or rng.random() < 0.3 else
+                 (n.replace("@p16", "@p2") if n.replace("@p16", "@p2") in allops else base_of(n)) for n in names]
         cases.append(_hist(rng.choice(dss), names, rng, "len%d" % ln))
     for _ in range(n_ep):
         cases.append(_ensure_case(rng))
@@ -831,6 +1564,9 @@ def gen_cases(rng, tier):
     cases += _trace_cases(rng, dss[0], n_tr)
     for _ in range(n_ga):
         cases.append(_gather_case(rng))
+    only = os.environ.get("C10_ONLY")  # development (mutation runs): keep only the cases whose tag contains one of these
+    if only:
+        cases = [c for c in cases if any(t in str(c.get("tag", "")) for t in only.split(","))]
     return cases
 
 
@@ -847,6 +1583,12 @@ def corpus():
         cs.append(_hist(ds, [n], rng, "corpus-J-ignore"))
     cs.append(_hist(ds, ["by_gene-list", "gene_intervals-list", "by_gene-list"], rng, "corpus-J-ignore"))
     cs.append(_hist(ds, ["by_gene-tuple", "by_gene-tuple"], rng, "corpus-tuple"))
+    # the same on the alternative representation (filtered subsets, permuted optional columns, Ensembl names, chrY)
+    for names in (["call-ci-cn", "call-ci-cn"], ["by_gene-list", "squash_genes-ref"], ["call-vcf-thr-purity", "call-vcf-thr-purity"],
+                  ["fix-unsorted", "fix"], ["fix-noanti", "fix-noanti"], ["chain-batch"], ["reference", "reference"],
+                  ["autosomes-also", "keep_columns"], ["genemetrics-guess", "genemetrics-guess"], ["export-nexus-ogt", "bintest"],
+                  ["segment-hmm-vcf", "segment-hmm-skip"], ["metrics-lists", "sex"]):
+        cs.append(_hist(82, names, rng, "corpus-alt"))
     # boundary cases of the numbered backups
     for pre, k in (([], 1), (["out.cnn"], 1), (["out.cnn", "out.cnn.1"], 2), (["out.cnn", "out.cnn.2"], 3),
                    (["out.cnn.1"], 2), (["out.cnn"] + ["out.cnn.%d" % j for j in range(1, 11)], 2)):
